@@ -8,9 +8,10 @@
 From Coq Require Import Reals List.
 From OV.base Require Import Num.
 From OV.gen Require Import Gen_Surface Gen_EdgeCpp Gen_Levelset Gen_MortarContact.
-From Coq Require Import ZArith Floats.
+From Coq Require Import ZArith.
+From Coq Require Floats.   (* not imported: primitives must print as PrimFloat.* under Print Assumptions *)
 From OV.model Require Import M_C16_Mortar M_C16_Mesh M_C16_Patched.
-From OV.proofs Require Import L_C18 L_C16 L_C16m L_C16h L_C16p L_C16f.
+From OV.proofs Require Import L_C18 L_C16 L_C16m L_C16h L_C16p L_C16f L_C16r.
 Import ListNotations.
 Local Open Scope R_scope.
 
@@ -148,8 +149,8 @@ Proof. exact parallel_same_orientation_from_a. Qed.
 Theorem C16_binary64_on_line_counts_as_positive : forall e a0 a1 d0 d1 k : Z,
   In e [-3; 0; 2]%Z -> (-3 <= a0 <= 3)%Z -> (-3 <= a1 <= 3)%Z -> (-3 <= d0 <= 3)%Z -> (-3 <= d1 <= 3)%Z -> (d0, d1) <> (0, 0)%Z ->
   (-8 <= k <= 12)%Z ->
-  let r := @cpp_distance float NumF (F a0 e) (F a1 e) (F (a0 + d0) e) (F (a1 + d1) e) (F (4 * a0 + k * d0) (e - 2)) (F (4 * a1 + k * d1) (e - 2)) in
-  PrimFloat.leb 0 r = true /\ ((0 <= k <= 4)%Z -> PrimFloat.eqb r 0 = true) /\ ((k < 0 \/ 4 < k)%Z -> PrimFloat.ltb 0 r = true).
+  let r := @cpp_distance PrimFloat.float NumF (F a0 e) (F a1 e) (F (a0 + d0) e) (F (a1 + d1) e) (F (4 * a0 + k * d0) (e - 2)) (F (4 * a1 + k * d1) (e - 2)) in
+  PrimFloat.leb (F 0 0) r = true /\ ((0 <= k <= 4)%Z -> PrimFloat.eqb r (F 0 0) = true) /\ ((k < 0 \/ 4 < k)%Z -> PrimFloat.ltb (F 0 0) r = true).
 Proof. exact cpp_distance_on_line_binary64. Qed.
 
 (* ==================================================================================================================
@@ -203,11 +204,11 @@ Proof. exact parallel_segments_average_p. Qed.
 (* binary64, by execution inside the kernel: on the witness of the finding the model of the unpatched source returns NaN
    (encoded [0; 7777]), the models of the patch (eps = 0 and eps = 1e-8) return the overlap length 0.6 within 8e-4 and gap = 0.1 * area *)
 Theorem C16_F1_witness_binary64 :
-  fenc (f1_mortar (@average_normal float NumF) oneF) = [0; 7777]%Z /\
-  near (f1_mortar (@average_normal_p float NumF 0) oneF) (F 5404319552844595 (-53)) (F 7378697629483821 (-63)) = true /\
-  near (f1_mortar (@average_normal_p float NumF (F 3022314549036573 (-78))) oneF) (F 5404319552844595 (-53)) (F 7378697629483821 (-63)) = true /\
-  near (f1_mortar (@average_normal_p float NumF (F 3022314549036573 (-78))) gapF)
-       (F 3602879701896397 (-55) * f1_mortar (@average_normal_p float NumF (F 3022314549036573 (-78))) oneF)%float (F 1 (-50)) = true.
+  fenc (f1_mortar (@average_normal PrimFloat.float NumF) oneF) = [0; 7777]%Z /\
+  near (f1_mortar (@average_normal_p PrimFloat.float NumF (F 0 0)) oneF) (F 5404319552844595 (-53)) (F 7378697629483821 (-63)) = true /\
+  near (f1_mortar (@average_normal_p PrimFloat.float NumF (F 3022314549036573 (-78))) oneF) (F 5404319552844595 (-53)) (F 7378697629483821 (-63)) = true /\
+  near (f1_mortar (@average_normal_p PrimFloat.float NumF (F 3022314549036573 (-78))) gapF)
+       (PrimFloat.mul (F 3602879701896397 (-55)) (f1_mortar (@average_normal_p PrimFloat.float NumF (F 3022314549036573 (-78))) oneF)) (F 1 (-50)) = true.
 Proof. exact F1_witness_binary64. Qed.
 
 (* F2: compute_intersection with the toleranced mask -tol <= xi <= 1+tol and clipping to [0,1].
@@ -243,6 +244,16 @@ Theorem C16_patchF2_keeps_the_overlap : forall tol d (l l' : list (R * R * R)),
   Forall2 (close d) l l' -> 0 <= d <= tol -> some_valid l ->
   cxa (@sel_min_p R NumR tol l') <= cxa (@sel_min R NumR l) + d /\ cxa (@sel_max R NumR l) - d <= cxa (@sel_max_p R NumR tol l').
 Proof. exact patched_selection_keeps_overlap. Qed.
+(* two-sided, for facing parallel segments in the axis position (A = (0,0)-(LA,0), B = (u,-h)-(v,-h), v < u, common normal (0,-1)):
+   on ANY candidate list l' whose parameters are within d <= tol of the exact ones, the area integral of the patched code is the
+   overlap length up to (l/2 + 3 (tol + d)) (|A| + |B|)   (l' := the exact list, d := 0 shows the hypotheses are satisfiable) *)
+Theorem C16_patchF2_parallel_robust : forall LA u v h l tol d, 0 < LA -> v < u -> 0 < l <= 1 / 2 -> 0 <= d <= tol ->
+  Rmax 0 v <= Rmin LA u -> forall l' : list (R * R * R),
+  Forall2 (close d) (@candidates R NumR 0 0 LA 0 u (- h) v (- h) 0 (- 1)) l' ->
+  forall quad : list (R * R), fold_right (fun q acc => snd q + acc) 0 quad = 1 ->
+  Rabs (@active R NumR (@sel_min_p R NumR tol l') (@sel_max_p R NumR tol l') LA (u - v) (fun _ _ _ => 1) l quad - (Rmin LA u - Rmax 0 v))
+    <= (l / 2 + 3 * (tol + d)) * (LA + (u - v)).
+Proof. exact patched_parallel_robust. Qed.
 (* ... whereas the un-toleranced mask of the source loses the WHOLE overlap of a conforming pair under an arbitrarily small
    outward perturbation of the parameters (the mechanism of finding C16-F2, over R), and the patched selection does not *)
 Theorem C16_F2_untoleranced_mask_refuted : forall d, 0 < d ->
@@ -257,10 +268,10 @@ Proof. exact untoleranced_mask_loses_the_overlap. Qed.
    source returns 0 instead of the overlap length 2 (all four candidates miss [0,1] by one rounding); f2_K = the failing input of
    the implementation recorded in known_findings.d/C16.json; the model of the patch (tol = 1e-12) returns 2 within 2^-26 on both *)
 Theorem C16_F2_witness_binary64 :
-  fenc (f2_W (@mortar float NumF (@normal_from_a float NumF))) = [0; 0]%Z /\
-  near (f2_W (@mortar_p float NumF tol12 (@normal_from_a float NumF))) 2 (F 1 (-26)) = true /\
-  near (f2_K (@mortar_p float NumF tol12 (@normal_from_a float NumF))) 2 (F 1 (-26)) = true /\
-  fenc (f2_W (@mortar_p float NumF 0 (@normal_from_a float NumF))) = [0; 0]%Z.
+  fenc (f2_W (@mortar PrimFloat.float NumF (@normal_from_a PrimFloat.float NumF))) = [0; 0]%Z /\
+  near (f2_W (@mortar_p PrimFloat.float NumF tol12 (@normal_from_a PrimFloat.float NumF))) (F 2 0) (F 1 (-26)) = true /\
+  near (f2_K (@mortar_p PrimFloat.float NumF tol12 (@normal_from_a PrimFloat.float NumF))) (F 2 0) (F 1 (-26)) = true /\
+  fenc (f2_W (@mortar_p PrimFloat.float NumF (F 0 0) (@normal_from_a PrimFloat.float NumF))) = [0; 0]%Z.
 Proof. exact F2_witness_binary64. Qed.
 
 (* ---- penalty energy and level sets ---- *)
@@ -362,7 +373,20 @@ Proof. exact mesh_penalty_zero_sphere. Qed.
    In floating point the implementation departs in two documented ways that the real model cannot express (division by zero is
    total in R): (i) with the average-normal rule two segments with bitwise equal normals give 0/0 = NaN for the common normal and
    a NaN integral (known finding C16-F1); (ii) when a 2x2 system is singular jnp.linalg.solve returns inf/NaN, which the validity
-   mask discards.
+   mask discards; (iii) the un-toleranced mask 0 <= xi <= 1 is decided by rounding for node-aligned pairs (known finding C16-F2).
+   PROVED in round 4 about binary64: C16_binary64_on_line_counts_as_positive (sign clause 0 |-> + of the regenerated cpp_distance at
+   T := float for points exactly on the line, on a stated grid of 147 168 dyadic inputs -- a bounded statement, NOT the clause for
+   all binary64 inputs); C16_F1_witness_binary64 / C16_F2_witness_binary64 (the binary64 hand model of the unpatched source returns
+   NaN resp. 0 on a witness -- (i) and (iii) are properties of the faithful model, not only of the implementation).
+   PROVED in round 4 about PROPOSED patches (models in model/M_C16_Patched.v, text in tools/vlib/c16_patches.py, /repo unchanged,
+   findings still open): C16_patchF1_* and C16_patchF2_* (incl. the two-sided perturbation bound C16_patchF2_parallel_robust for facing
+   parallel segments).  Still NOT PROVED for the patches: that the binary64 2x2 solves perturb the parameters by at most d <= tol
+   (a rounding error analysis of Cramer / LU for well-conditioned systems: the perturbation is a HYPOTHESIS of
+   C16_patchF2_keeps_the_overlap / _parallel_robust), hence no statement for ALL binary64 inputs -- the patched models are tied at
+   binary64 by the `patched` correspondence stream only; the gap integral under perturbation (only the area integral is bounded).
+   PROVED in round 4 about the unpatched source: the parallel-segment clause for the average-normal rule (facing segments) and for
+   same-orientation segments with the one-sided rule (C16_parallel_segments_average, C16_parallel_same_orientation_from_a); the
+   average rule on same-orientation segments is the open finding C16-F1 (0/0).
    PROVED since round 3 (was NOT PROVED): the level-set clause for the mesh-level functions -- C16_mesh_levelset_pointwise (every
    numeric type, binary64 included: it is a statement about which nodes are gathered and which expression is evaluated),
    C16_mesh_contact_point_coordinates, C16_mesh_penalty_sign and the obstacle-specific corollaries.
@@ -389,3 +413,7 @@ Print Assumptions C16_mortar_rigid_invariance_average.
 Print Assumptions C16_parallel_segments.
 Print Assumptions C16_mesh_levelset_pointwise.
 Print Assumptions C16_mesh_penalty_sign.
+Print Assumptions C16_parallel_segments_average.
+Print Assumptions C16_binary64_on_line_counts_as_positive.
+Print Assumptions C16_patchF1_same_orientation.
+Print Assumptions C16_patchF2_parallel_robust.
